@@ -1,7 +1,7 @@
 #!/bin/bash
 # bin/verify_seed.sh <seedwork out dir e.g. /tmp/seedwork/C05/out/a> -> confirms: applies, builds, suite passes, demo fails with / passes without
 set -u
-src="$1"; id=$(echo "$src" | sed 's#/tmp/seedwork2/\(C[0-9]*\)/out/#\1-w2#; s#/tmp/seedwork3/\(C[0-9]*\)/out/#\1-w3#; s#/tmp/seedwork/##; s#/out/#-#')
+src="$1"; id=$(echo "$src" | sed 's#/tmp/seedwork2/\(C[0-9]*\)/out/#\1-w2#; s#/tmp/seedwork3/\(C[0-9]*\)/out/#\1-w3#; s#/tmp/w4/\(C[0-9]*\)/out/#\1-w4#; s#/tmp/seedwork/##; s#/out/#-#')
 export GOFLAGS=-mod=mod GOPROXY=off GOSUMDB=off GOTOOLCHAIN=local
 wt=$(mktemp -d /tmp/vseed-XXXXXX); rmdir "$wt"
 git -C /repo worktree add -q --detach "$wt" HEAD || exit 2
